@@ -182,7 +182,7 @@ back as a bare key and everything else as its `str()`. -/
 theorem format_query_roundtrip (items : List (Str × ArgVal)) (hne : items ≠ []) :
     decodeQuery (queryString items) = items.map (fun kv => (kv.1, wireVal kv.2)) := by
   unfold decodeQuery queryString
-  rw [splitOn_join _ '&' (by simpa using hne)]
+  rw [splitOn_join_s20 _ '&' (by simpa using hne)]
   · simp [List.map_map, Function.comp_def, decodeItem_format]
   · intro it hit
     simp only [List.mem_map] at hit
@@ -240,12 +240,12 @@ theorem format_url_query_fragment (base : Str) (path : Option PathArg) (args : O
       if retainedArgs args = [] then none else some (queryString (retainedArgs args))) := by
     rw [← hX]
     split
-    · simp [splitFirst_notMem _ _ hq]
-    · exact splitFirst_append_sep _ _ _ hq
+    · simp [splitFirst_notMem_s20 _ _ hq]
+    · exact splitFirst_append_sep_s20 _ _ _ hq
   unfold splitQuery splitFragment
   cases fragment with
-  | none => simp [splitFirst_notMem _ _ hXh, hXq]
-  | some f => simp [splitFirst_append_sep _ _ _ hXh, hXq]
+  | none => simp [splitFirst_notMem_s20 _ _ hXh, hXq]
+  | some f => simp [splitFirst_append_sep_s20 _ _ _ hXh, hXq]
 
 /-- **path join**: base and path are joined by exactly one `/` — the base loses its
 trailing slashes, the path (a string, or list items joined by `/`) its leading ones -/
@@ -262,9 +262,9 @@ theorem format_path_join (base : Str) (p : PathArg) (args : Option Args)
     unfold urlPrefix addExt joinPath
     cases p <;> cases ext <;> simp [ps]
   · intro pre h
-    exact rstripChars_last _ _ _ _ h (by simp)
+    exact rstripChars_last_s20 _ _ _ _ h (by simp)
   · intro t h
-    exact lstripChars_head _ _ _ _ h (by simp)
+    exact lstripChars_head_s20 _ _ _ _ h (by simp)
 
 /-- **fragment**: the given fragment, without its leading `#`s, is appended after a single
 `#` to what `format_url` returns without fragment -/
@@ -275,7 +275,7 @@ theorem format_fragment (base : Str) (path : Option PathArg) (args : Option Args
     (∀ t, lstripChars f ['#'] ≠ '#' :: t) := by
   refine ⟨by simp [format_url, addFragment], ?_⟩
   intro t h
-  exact lstripChars_head _ _ _ _ h (by simp)
+  exact lstripChars_head_s20 _ _ _ _ h (by simp)
 
 /-- membership in a merged argument dict: the call's items, and the formatter's items whose
 key the call does not redefine -/
@@ -337,8 +337,8 @@ theorem add_query_argument_appends_one (url name : Str) (value : Option Str) (hn
   have hAh : '#' ∉ wireArg name value := wireArg_not_mem _ _ '#' (by decide) (by decide)
   have hAa : '&' ∉ wireArg name value := wireArg_not_mem _ _ '&' (by decide) (by decide)
   -- facts on the pieces of `url`
-  have hf := splitFirst_spec url '#'
-  have hq := splitFirst_spec (splitFirst url '#').1 '?'
+  have hf := splitFirst_spec_s20 url '#'
+  have hq := splitFirst_spec_s20 (splitFirst url '#').1 '?'
   have hbase_q : '?' ∉ (splitQuery url).1 := hq.1
   have hmain_h : '#' ∉ (splitFirst url '#').1 := hf.1
   have hbase_h : '#' ∉ (splitQuery url).1 := by
@@ -375,13 +375,13 @@ theorem add_query_argument_appends_one (url name : Str) (value : Option Str) (hn
     simp only [queryItems, if_neg hQne]
     rw [← hQ]
     cases h2 : (splitQuery url).2 with
-    | none => simp [appendedQuery, splitOn_notMem _ _ hAa]
+    | none => simp [appendedQuery, splitOn_notMem_s20 _ _ hAa]
     | some q =>
       simp only [appendedQuery]
       by_cases hqe : q = []
-      · simp [hqe, splitOn_notMem _ _ hAa]
+      · simp [hqe, splitOn_notMem_s20 _ _ hAa]
       · simp only [hqe, if_false]
-        rw [splitOn_append_sep, splitOn_notMem _ _ hAa]
+        rw [splitOn_append_sep_s20, splitOn_notMem_s20 _ _ hAa]
   have hmainh : '#' ∉ (splitQuery url).1 ++ '?' :: Q := by
     intro hm
     simp only [List.mem_append, List.mem_cons] at hm
@@ -393,14 +393,14 @@ theorem add_query_argument_appends_one (url name : Str) (value : Option Str) (hn
       fragmentSuffix (splitFragment url).2) '#' =
       ((splitQuery url).1 ++ '?' :: Q, (splitFragment url).2) := by
     cases (splitFragment url).2 with
-    | none => simp [fragmentSuffix, splitFirst_notMem _ _ hmainh]
+    | none => simp [fragmentSuffix, splitFirst_notMem_s20 _ _ hmainh]
     | some f =>
       simp only [fragmentSuffix]
       rw [show (splitQuery url).1 ++ '?' :: Q ++ '#' :: f = ((splitQuery url).1 ++ '?' :: Q) ++ '#' :: f
         by simp]
-      exact splitFirst_append_sep _ _ _ hmainh
+      exact splitFirst_append_sep_s20 _ _ _ hmainh
   have hsplitQ : splitFirst ((splitQuery url).1 ++ '?' :: Q) '?' = ((splitQuery url).1, some Q) :=
-    splitFirst_append_sep _ _ _ hbase_q
+    splitFirst_append_sep_s20 _ _ _ hbase_q
   refine ⟨?_, ?_, ?_⟩
   · show (splitFirst (splitFirst _ '#').1 '?').1 = _
     rw [hsplitF, hsplitQ]
@@ -502,30 +502,30 @@ theorem pathsplit_spec (urlpath : Str) :
     simp only []
     split
     · rename_i h; rw [hcore, h]; rfl
-    · exact join_splitOn _ _
+    · exact join_splitOn_s20 _ _
   · unfold pathsplit
     simp only []
     split
     · simp
-    · exact splitOn_no_sep _ _
+    · exact splitOn_no_sep_s20 _ _
   · unfold pathsplit
     simp only []
     constructor
     · intro h
       split at h
       · rename_i h'; exact h'
-      · exact absurd h (splitOn_ne_nil _ _)
+      · exact absurd h (splitOn_ne_nil_s20 _ _)
     · intro h; rw [hcore] at h; simp [h]
   · intro t h
     rw [hcore] at h
     unfold stripChars at h
     obtain ⟨suf, hsuf⟩ := rstripChars_prefix (lstripChars (strip urlpath) ['/']) ['/']
     rw [h] at hsuf
-    exact lstripChars_head _ _ _ _ hsuf (by simp)
+    exact lstripChars_head_s20 _ _ _ _ hsuf (by simp)
   · intro pre h
     rw [hcore] at h
     unfold stripChars at h
-    exact rstripChars_last _ _ _ _ h (by simp)
+    exact rstripChars_last_s20 _ _ _ _ h (by simp)
 
 /-- **`urlpathsplit`** is `pathsplit` of the path `urlsplit` finds (after `http://` has been
 prepended to a scheme-less url), so `pathsplit_spec` applies to it -/
